@@ -5,7 +5,7 @@ import explore as ex
 from explore import Violation, expect, conc
 import native as nativemod
 
-VERIF = '/verif'
+VERIF = os.path.dirname(os.path.dirname(os.path.abspath(__file__)))
 
 class InstanceResult(dict):
     pass
